@@ -32,8 +32,8 @@ CHECKS = {
   technique="deterministic simulation: seeded demand schedules and cut-off faults over the lazy result graph, exactly-once oracle over the recorded trace history",
   design="§5.1"),
 "C04": dict(
-  text="Seeded exploration (deterministic simulation), scoped to the clauses of C04 that quantify over crash points, histories and configurations: (ii) frame-limit cut-off swept over every depth of depth-parametric templates (value or StackOverflow, monotone, shallow recursion fits the defaults, quiescent interpreter state after every cut-off), (iii) self-dependence reported as infinite recursion, (iv) after any history of failing evaluations the same thread and states evaluate a canary normally, and the process-level half of (i): the jrsonnet executable, supervised as a child across --max-stack/--os-stack settings, never dies by signal, abort or hang on runaway recursion, deep legal recursion or deeply nested source; plus sequences of standard-library calls, operators, index and slice expressions on boundary-heavy argument tuples (empty, huge, negative, fractional, wrong type, non-ASCII; c04_stdedge) on one thread and state, each ending in a value or a Jsonnet error and leaving the thread usable. A clean batch is evidence, not proof.",
-  note="NOT decided: clause (i) over arbitrary source text (a statement about inputs, outside this technique); std arguments are sampled from fixed boundary pools per parameter kind, not enumerated, and sizes that would honestly need gigabytes are kept small. Trusted: closed forms of the templates; the dev-profile executable stands for the shipped one (release has panic=abort and smaller frames). Known findings F10 (deeply nested source overflows the native stack) and F12 (recursive Drop of long value chains) are matched by family and depth only.",
+  text="Seeded exploration (deterministic simulation), scoped to the clauses of C04 that quantify over crash points, histories and configurations: (ii) frame-limit cut-off swept over every depth of depth-parametric templates (value or StackOverflow, monotone, shallow recursion fits the defaults, quiescent interpreter state after every cut-off), (iii) self-dependence reported as infinite recursion, (iv) after any history of failing evaluations the same thread and states evaluate a canary normally, and the process-level half of (i): the jrsonnet executable, supervised as a child across --max-stack/--os-stack settings, never dies by signal, abort or hang on runaway recursion, deep legal recursion or deeply nested source; plus sequences of standard-library calls, operators, index and slice expressions on boundary-heavy argument tuples (empty, huge, negative, fractional, wrong type, non-ASCII; c04_stdedge) on one thread and state, each ending in a value or a Jsonnet error and leaving the thread usable; pool programs damaged at the character/token level, as snippet or imported file, with every error rendered by the compact trace format (c04_source); and the executable with --trace-format explaining on damaged and multi-line sources in supervised children (c04_explain). A clean batch is evidence, not proof.",
+  note="Clause (i) is sampled, not decided: source texts are seeded mutations of the program pool, std arguments come from fixed boundary pools per parameter kind, and sizes that would honestly need gigabytes are kept small. Trusted: closed forms of the templates; the dev-profile executable stands for the shipped one (release has panic=abort and smaller frames). Known findings F10 (deeply nested source overflows the native stack) and F12 (recursive Drop of long value chains) are matched by family and depth only; F28, F30, F31 (crashes and an unbounded allocation loop of the explaining trace format inside the hi-doc/annotated-string dependencies) are matched by call site and input shape in c04_explain.",
   technique="deterministic simulation: crash-point (frame-limit) sweep, seeded error histories and boundary-argument call sequences on one thread, supervised child processes across stack configurations",
   design="§5.2"),
 "C18": dict(
